@@ -23,7 +23,7 @@ func init() { register("engine", cmdEngine) }
 // with one global sequence), the result of Execute, timings, the deploy-close balance and the goroutine delta.  The
 // monitors in lib/monitors.py evaluate the properties on these observations.
 
-var engineOutcomes = []string{"success", "success", "success", "success", "success", "error", "alt", "crash", "deploy_fail"}
+var engineOutcomes = []string{"success", "success", "success", "success", "success", "error", "alt", "crash", "deploy_fail", "success", "start_fail"}
 
 type engineOpts struct {
 	cancelAfterMs int  // >= 0: cancel the caller's context after that many ms
@@ -47,6 +47,12 @@ func genBehaviours(r *rng, wf *AWf, o engineOpts) map[string]Behaviour {
 			bh.Outcome = "success"
 			bh.DeployFail = true
 		}
+		if oc == "start_fail" {
+			// deploys, then fails in its starting stage (the connection to the plugin is broken): ends as crashed without
+			// ever executing
+			bh.Outcome = "success"
+			bh.StartFail = true
+		}
 		if r.chance(1, 3) {
 			bh.DelayMs = r.intn(25)
 		}
@@ -64,6 +70,13 @@ func genBehaviours(r *rng, wf *AWf, o engineOpts) map[string]Behaviour {
 		}
 		if r.chance(1, 4) {
 			bh.Data = map[string]any{"b": r.chance(1, 2)}
+		}
+		if slowLogMs > 0 && r.chance(1, 2) {
+			// logged outputs: the step's text output is long (a log line may abbreviate it, the data may not be touched)
+			if bh.Data == nil {
+				bh.Data = map[string]any{}
+			}
+			bh.Data["s"] = "long-" + s.ID + "-" + strings.Repeat("v", 280+r.intn(600))
 		}
 		b[s.Src] = bh
 	}
@@ -106,6 +119,10 @@ func runEngineCase(r *rng, caseID string, g genOpts, o engineOpts) map[string]an
 	text := wf.yaml(nil, nil)
 	beh := genBehaviours(r, wf, o)
 	input := map[string]any{"name": "nm"}
+	if slowLogMs > 0 && r.chance(1, 2) {
+		// logged outputs: long texts travel through the logged step outputs (a log line may abbreviate, the data may not)
+		input["name"] = strings.Repeat("n", 300+r.intn(600))
+	}
 	for _, fl := range wf.InputFields {
 		if fl.Name == "flag" {
 			input["flag"] = r.chance(2, 3)
@@ -385,7 +402,7 @@ func cmdPrompt(args []string) int {
 	kinds := []string{"producer-error", "producer-crash", "producer-deploy-fail", "needs-crashed-of-succeeding-step",
 		"needs-closed-of-succeeding-step", "needs-deploy-failed-of-succeeding-step", "wait-optional-on-crashed-of-succeeding-step",
 		"waits-for-crashed-stage-of-succeeding-step", "output-expression-fails-at-run-time", "step-input-expression-fails-at-run-time",
-		"container-of-a-running-step-cannot-be-removed"}
+		"container-of-a-running-step-cannot-be-removed", "needs-started-of-a-step-that-fails-to-start"}
 	for i := 0; i < c.n; i++ {
 		cr := r.fork()
 		if i < c.skip {
@@ -430,6 +447,14 @@ func cmdPrompt(args []string) int {
 			beh["g"] = Behaviour{Outcome: "hang"}
 			beh["h"] = Behaviour{Outcome: "hang", CloseFail: true}
 			out.put("v", expr("$.steps.a.outputs.success.s"))
+		case "needs-started-of-a-step-that-fails-to-start":
+			// step a deploys and then fails in its starting stage (broken connection): it never gets started, so the step
+			// that waits for a's `starting.started` can never run and the only output can never be produced
+			beh["a"] = Behaviour{Outcome: "success", StartFail: true}
+			wf.Steps = append(wf.Steps, AStep{ID: "c", Kind: "plugin", PlugStep: "op", Src: "c", Fields: map[string]AIn{
+				"input": amap("s", lit("w")), "wait_for": expr("$.steps.a.starting.started"), "closure_wait_timeout": lit("100")}})
+			beh["c"] = Behaviour{Outcome: "success"}
+			out.put("v", expr("$.steps.c.outputs.success.s"))
 		case "output-expression-fails-at-run-time":
 			// the only output evaluates an expression that fails on the value step a produced: the run has to end with that
 			// error at once, whatever the unrelated never-ending step does
